@@ -18,7 +18,7 @@ POOL = [
     ("fm25", "(-2.5)", "float", ""),
     ("c1i", "1i", "complex", ""), ("c10", "(1+0i)", "complex", ""), ("c25", "(2.5-1i)", "complex", ""),
     ("s0", '""', "str", ""), ("sa", '"a"', "str", ""), ("sabc", '"abc"', "str", ""), ("shel", '"héllo"', "str", ""),
-    ("sz", '"0"', "str", ""), ("s12", '"12"', "str", ""), ("ssp", '" x\\n"', "str", ""), ("sre", '"a(b"', "str", ""),
+    ("se", '"é"', "str", ""), ("sz", '"0"', "str", ""), ("s12", '"12"', "str", ""), ("ssp", '" x\\n"', "str", ""), ("sre", '"a(b"', "str", ""),
     ("y0", "B[]", "bytes", ""), ("y1", "B[0]", "bytes", ""), ("y3", "B[255,0,128]", "bytes", ""),
     ("l0", "[]", "list", ""), ("l1", "[1]", "list", ""), ("l3", "[1,2,3]", "list", ""), ("lnest", "[[1,2],[3]]", "list", ""),
     ("lmix", '[1,"a",null]', "list", ""), ("l200", "([0] ** 200)", "list", ""), ("lpairs", '[["a", 1], ["b", 2]]', "list", ""),
@@ -52,6 +52,6 @@ EXCLUDED = {
 }
 
 # Reduced pool for the quick tier: one or two representatives per kind (all pairs are swept)
-QUICK = ["i0", "i1", "im1", "i2_63m", "i1e30", "b7", "q12", "f05", "fnan", "c1i",
+QUICK = ["i0", "i1", "im1", "i2_63m", "im2_63", "i1e30", "b7", "q12", "f05", "fnan", "c1i",
          "s0", "sabc", "y3", "l0", "l3", "lnest", "v2", "d1", "ddef",
          "r13", "r51", "siota", "fid", "fzero", "feven", "tint", "ifoo", "nul"]
